@@ -6,13 +6,16 @@ from engine import build, irsym
 from engine.ceval import ceval, ArrVal
 from spec import params as P, vm_ref as V
 
-def build_shim(tag):
+def build_shim_so(tag):
     lib = build.native_lib(tag); d = build.workdir(tag); so = os.path.join(d, 'libshim.so')
     build.run(['g++', '-std=gnu++11', '-O1', '-maes', '-fPIC', '-shared', '-w', '-D' + build.GUARD, '-I', os.path.join(build.REPO, 'src'),
                os.path.join(build.VERIF, 'replay', 'shim.cpp'), lib, '-o', so, '-Wl,-rpath,' + d])
+    return so
+def load_shim(so):
     L = ctypes.CDLL(so)
     L.verif_interp_step.restype = ctypes.c_int; L.verif_jit_emit.restype = ctypes.c_int
     return L
+def build_shim(tag): return load_shim(build_shim_so(tag))
 
 class Env:
     """the solver's assignment (model completion: anything the model leaves open is 0)"""
